@@ -97,24 +97,55 @@ def name_at(state, flow_state, pos):
         REC.uid = saved
 
 
+def _without_arguments(el):
+    """a copy of a match element with every argument expression removed (constructor and member arguments)"""
+    import copy
+
+    el = copy.deepcopy(el)
+    spec = el.spec
+    spec.arguments = {}
+    for m in spec.members or []:
+        try:
+            m.arguments = {}
+        except Exception:  # noqa
+            pass
+    return el
+
+
+def waited_name_info(state, flow_state, pos):
+    """(name, with_args): `waited_name_at` and whether the name comes from the evaluation WITH the argument expressions"""
+    els = state.flow_configs[flow_state.flow_id].elements
+    if not (0 <= pos < len(els)):
+        return None, False
+    el = els[pos]
+    if not sm.is_match_op_element(el):
+        return None, False
+    saved = REC.uid
+    try:
+        with_args = True
+        try:
+            ev = sm.get_event_from_element(state, flow_state, el)
+        except Exception:  # noqa
+            with_args = False
+            ev = sm.get_event_from_element(state, flow_state, _without_arguments(el))
+        nm = getattr(ev, "name", None)
+        return (nm if isinstance(nm, str) else "!raise"), with_args
+    except Exception:  # noqa
+        return "!raise", False
+    finally:
+        REC.uid = saved
+
+
 def waited_name_at(state, flow_state, pos):
     """The event name the match element at `pos` waits for NOW, the way the DISPATCHER sees it: an incoming event is compared
     with `get_event_from_element(state, flow_state, element)` (`_compute_event_matching_score`), evaluated on the current
-    context — not with whatever name the index was given when the head was registered.  None if there is no match element,
-    '!raise' if the indexer's own name function raises (the head cannot be registered then); if only the full evaluation
-    raises (argument expressions), the name function's answer.  Side-effect free on the uid counter."""
-    nm = name_at(state, flow_state, pos)
-    if nm is None or nm == "!raise":
-        return nm
-    el = state.flow_configs[flow_state.flow_id].elements[pos]
-    saved = REC.uid
-    try:
-        ev = sm.get_event_from_element(state, flow_state, el)
-        return ev.name if isinstance(getattr(ev, "name", None), str) else nm
-    except Exception:  # noqa
-        return nm
-    finally:
-        REC.uid = saved
+    context — not with whatever name the index was given when the head was registered, and not with the answer of the
+    indexer's own name function (`get_event_name_from_element` is NOT consulted here: a shortcut inside it must not reach the
+    oracle).  None if there is no match element.  If the full evaluation raises, the element is evaluated once more without
+    its argument expressions (an argument that cannot be evaluated makes the statement match nothing, but it still has a
+    name); if that raises as well the element names NO event ('!raise'): a head must not stay parked there under any name.
+    Side-effect free on the uid counter."""
+    return waited_name_info(state, flow_state, pos)[0]
 
 
 def obj_json(v, path):
@@ -141,15 +172,23 @@ def obj_json(v, path):
 
 
 def ref_registration(state, flow_state, head):
-    """None unless the head stands on a match element over a reference (`match $ref.Finished()` …)"""
+    """None unless the head stands on a match element whose name is computed THROUGH AN OBJECT: over a reference
+    (`match $ref.Finished()` …: case 1 of the name function) or over a flow / action given by name (`match some_flow.Start()`,
+    `match SomeAction.Stop()`: case 2)."""
     try:
         el = state.flow_configs[flow_state.flow_id].elements[head.position]
         spec = el.spec
         var = spec.var_name
-        if var is None:
-            return None
         members = None if spec.members is None else [m.name for m in spec.members]
-        if members is not None and (not members or any(not isinstance(m, str) for m in members)):
+        if members is not None and any(not isinstance(m, str) for m in members):
+            return None
+        if var is None:
+            if members is None:
+                return None           # case 3, a bare event: the name is the spec's name
+            st = spec.spec_type.value if hasattr(spec.spec_type, "value") else str(spec.spec_type)
+            return {"var": None, "name": spec.name, "type": st, "members": members, "known": spec.name in state.flow_configs,
+                    "flow_id": flow_state.flow_id, "pos": head.position, "key": [flow_state.uid, head.uid], "obj": None}
+        if members is not None and not members:
             return None
         rec = {"var": var, "members": members, "flow_id": flow_state.flow_id, "pos": head.position, "key": [flow_state.uid, head.uid]}
         rec["obj"] = obj_json(flow_state.context[var], (members or [])[:-1]) if var in flow_state.context else None
@@ -361,10 +400,18 @@ def install():
         # start, or the name changed while the head waited)
         rec = None
         if REC.state is state:
-            nm = waited_name_at(state, flow_state, head.position)
+            nm, with_args = waited_name_info(state, flow_state, head.position)
             REC.regnames[(flow_state.uid, head.uid)] = [nm, head.position]
             REC.stmt_names.setdefault((flow_state.flow_id, head.position), set()).add(nm)
             rec = ref_registration(state, flow_state, head)
+            if rec is not None:
+                # the dispatcher's name at this moment, and whether the member arguments (evaluated) contain `arguments`
+                rec["dispatch"] = nm
+                try:
+                    ms = state.flow_configs[flow_state.flow_id].elements[head.position].spec.members
+                    rec["change_args"] = bool(with_args and ms and "arguments" in (ms[-1].arguments or {}))
+                except Exception:  # noqa
+                    rec["change_args"] = False
         if rec is None:
             return orig_add_head(state, flow_state, head)
         # a reference match: the referent as the name computation sees it, and what the interpreter did with it
@@ -488,9 +535,21 @@ def group_ops(prims):
     # a name whose computation raises: the real callback raises after the removal and before the insertion
     prims = [[(None if x == "!raise" else x) for x in p] for p in prims]
     i, n = 0, len(prims)
+    done = set()     # instances that were set STOPPED / FINISHED (heads dropped) earlier in this segment and not revived since
     while i < n:
         p = prims[i]
         k = p[0]
+        if k == "setFlowStatus":
+            (done.add if p[2] in ("stopped", "finished") else done.discard)(p[1])
+        elif k in ("addInst", "installHeads"):
+            done.discard(p[1])
+        if k in ("setPos", "setStatus") and not p[5] and p[1] in done:
+            # a flow that ended ITSELF in the middle of the slide of its own head (e.g. a `when FlowStarted()` without flow_id
+            # matched the flow's own FlowStarted event: the flow sits in its own scope and is aborted by its own `EndScope`):
+            # `slide` still advances the head object, which is no longer in `flow_state.heads`.  The callback removes nothing
+            # (the head was unregistered by the abort) and adds nothing (the flow is not listening): no index operation.
+            i += 1
+            continue
         if k == "addInst":
             _, f, h, nm0, nheads, pos = p
             if nheads != 1 or pos != 0:
